@@ -14,13 +14,14 @@ Point == IF ex = "hook" THEN "hook"
          ELSE IF ex = "load" /\ ~reqSent /\ k < K THEN "preload"
          ELSE IF ex = "load" /\ reqSent /\ online /\ avail = 0 /\ k < K THEN "wait"
          ELSE IF ex = "idle" /\ task # "pending" THEN "idle"
+         ELSE IF ex = "blocked" THEN "queued"
          ELSE "moving"
 Stable == Point # "moving" /\ inErrBy = "none" /\ ~ENABLED (EColSteps \/ PColSteps \/ ActorSteps)
 Ev(name, a, b) == [ev |-> name, a |-> a, b |-> b, at |-> Point, k |-> Loaded]
 Statuses == {"partial", "paused", "full", "failed"}
 Reacts == {"ok", "update", "error"}
 
-SInit == Init /\ hist = <<>>
+SInit == Init /\ hist = (IF ex = "blocked" THEN <<[ev |-> "blockedstart", a |-> "", b |-> "", at |-> "queued", k |-> 0]>> ELSE <<>>)
 SEnv == /\ Stable /\ Point # "hook"
         /\ \/ \E s \in Statuses, hr \in Reacts : bServing /\ Responses("B", s, hr) /\ hist' = Append(hist, Ev("B", s, hr)) /\ cancelLive' = cancelLive
            \/ \E s \in Statuses, hr \in Reacts : Responses("C", s, hr) /\ gotTerminal' = gotTerminal /\ hist' = Append(hist, Ev("C", s, hr)) /\ cancelLive' = cancelLive
@@ -28,6 +29,7 @@ SEnv == /\ Stable /\ Point # "hook"
            \/ CtxCancel /\ hist' = Append(hist, Ev("ctxcancel", "", ""))
            \/ ApiCancel /\ hist' = Append(hist, Ev("apicancel", "", "")) /\ cancelLive' = cancelLive
            \/ UnpauseApi /\ nenv < MaxEnv /\ hist' = Append(hist, Ev("unpause", "", "")) /\ cancelLive' = cancelLive
+           \/ FreeWorker /\ hist' = Append(hist, Ev("free", "", "")) /\ cancelLive' = cancelLive
 \* inside the block hook the harness may fire environment events and then returns the hook's decision
 SHookEnv == /\ ex = "hook" /\ inErrBy = "none"
             /\ \/ \E s \in Statuses, hr \in Reacts : bServing /\ Responses("B", s, hr) /\ hist' = Append(hist, Ev("B", s, hr)) /\ cancelLive' = cancelLive
@@ -36,13 +38,13 @@ SHookEnv == /\ ex = "hook" /\ inErrBy = "none"
                \/ CtxCancel /\ hist' = Append(hist, Ev("ctxcancel", "", ""))
                \/ ApiCancel /\ hist' = Append(hist, Ev("apicancel", "", "")) /\ cancelLive' = cancelLive
 SHook == \E h \in {"ok", "pause", "error"} : Hook(h) /\ hist' = Append(hist, Ev("hook", h, "")) /\ cancelLive' = cancelLive
-SSys == (GetTask \/ Release \/ TerminateRest \/ Pop \/ Load \/ Report \/ Reported \/ LatchOnly \/ Finish \/ Finished
+SSys == (GetTask \/ Release \/ TerminateRest \/ RemoveTask \/ Pop \/ Load \/ Report \/ Reported \/ LatchOnly \/ Finish \/ Finished
          \/ ECollect \/ EClosed \/ ECtx \/ PCtx \/ PSendCancel \/ PDrainErr \/ PClosed) /\ hist' = hist /\ cancelLive' = cancelLive
 SNext == SEnv \/ SHookEnv \/ SHook \/ SSys
 
 \* quiescent: nothing but the environment could move
 SQuiet == ~ENABLED SSys /\ ex # "hook"
-Final == [st |-> st, closed |-> outClosed, errs |-> outErrs, wire |-> wire, hooks |-> hookCalls, k |-> Loaded, task |-> task,
+Final == [blocked |-> (ex = "blocked"), st |-> st, closed |-> outClosed, errs |-> outErrs, wire |-> wire, hooks |-> hookCalls, k |-> Loaded, task |-> task,
           obliged |-> Obliged, termErr |-> termErr]
 EmitScript == SQuiet => PrintT(ToJson([script |-> hist, final |-> Final]))
 =============================================================================
